@@ -31,8 +31,21 @@ NEAR_ORDER = ["hostfw", "passblocked", "subnetfw", "pivot", "access", "discovery
               "os", "service", "process"]
 
 
+def kind_of(a):
+    """kind of a real Action through its documented predicate methods (class
+    names are an implementation detail)"""
+    for pred, kind in (("is_exploit", "exploit"), ("is_privilege_escalation", "privesc"),
+                       ("is_service_scan", "service_scan"), ("is_os_scan", "os_scan"),
+                       ("is_subnet_scan", "subnet_scan"), ("is_process_scan", "process_scan"),
+                       ("is_noop", "noop")):
+        f = getattr(a, pred, None)
+        if f is not None and f():
+            return kind
+    return KIND_OF_CLASS.get(type(a).__name__)
+
+
 def real_key(a):
-    kind = KIND_OF_CLASS.get(type(a).__name__)
+    kind = kind_of(a)
     name = str(a.name) if kind in ("exploit", "privesc") else None
     return (kind, tuple(int(i) for i in a.target), name)
 
